@@ -12,7 +12,9 @@ pub mod c01;
 pub mod c02;
 pub mod c03;
 pub mod c04;
+pub mod c14;
 pub mod c15;
+pub mod c17;
 pub mod c18;
 
 use common::{Ctx, Report};
@@ -26,7 +28,9 @@ pub fn run_property(prop: &str, ctx: &Ctx) -> Option<Report> {
         "C05" => mgrx::run(ctx, "C05"),
         "C06" => mgrx::run(ctx, "C06"),
         "C10" => mgrx::run(ctx, "C10"),
+        "C14" => c14::run(ctx),
         "C15" => c15::run(ctx),
+        "C17" => c17::run(ctx),
         "C18" => c18::run(ctx),
         _ => return None,
     })
